@@ -15,6 +15,16 @@ siblings and addresses trace / reset / load / remove at the other one.  The
 sibling names are not prefixes of one another, so a failure there can only
 come from confusing the ids in the textual keys; its signatures start with
 'id-prefix:<level>:'.
+
+A third, seed-independent part ("versions") stores the SAME names (run, target,
+task, algorithm, state vector, value) under two versions of the algorithm and /
+or the state vector and / or the value - every non-empty subset of the three
+levels, all 2 / 4 / 8 version combinations, written in ascending and in
+descending order - next to bystanders (same names in another run, on another
+target, a value whose name the addressed one prefixes) and addresses trace /
+reset / remove at the names.  remove has to delete ALL entries with exactly
+those names whatever their versions, and nothing else; its signatures start
+with 'versions:<levels>:'.
 '''
 
 import itertools
@@ -39,7 +49,10 @@ BOUND = (
     'an enumerated seed-independent part with 13 (thorough: 22) siblings n00.. at one '
     'of the levels (or run ids 1,2 vs 10,11,12,21,..) for every pair of ids of which '
     'one is a decimal sub-string of the other x {only the long id has entries, only '
-    'the short id has entries, both have}'
+    'the short id has entries, both have}; plus an enumerated seed-independent part in which one name (run, target, task, '
+    'algorithm, state vector, value) is stored under 2 versions at every non-empty subset of the levels {alg, sv, val} (2/4/8 '
+    'entries of the same names) x {ascending, descending write order} x {remove first, trace/reset first, reopen first} '
+    '(thorough: x base names {A, AB}), with bystander entries (other run, other target, prefix-named value)'
 )
 
 CLAUSES = [
@@ -78,9 +91,11 @@ class Runner:
         self.step = -1
         self.content = 0
 
-    def flag(self, clause, signature, observed, expected, idsig=None):
-        if self.tag:
+    def flag(self, clause, signature, observed, expected, idsig=None, vsig=None):
+        if self.tag and self.tag.startswith('id-prefix'):
             signature = self.tag + ':' + (idsig or signature)
+        elif self.tag:
+            signature = self.tag + ':' + (vsig or signature)
         self.found.append({'clause': clause, 'signature': signature, 'observed': observed, 'expected': expected, 'step': self.step})
 
     # ---- audits (independent code) --------------------------------------------
@@ -117,7 +132,19 @@ class Runner:
             if op[0] == 'remove':
                 sig += ':' + self.collision_kind(op, missing)
                 idsig = ('remove-deleted-entries-of-other-id' if missing else '') + ('+' if missing and extra else '') + ('remove-kept-the-addressed-entries' if extra else '')
-            self.flag(clause, sig, {'after': op, 'missing': missing, 'unexpected': extra}, 'prime == entries written and not removed by exact name', idsig)
+            vsig = None
+            if op[0] == 'remove':
+                addressed = [op[1], op[2], op[3], op[4], op[5], op[6]]
+                same = [e for e in extra if [e[0], e[1], e[2], e[3][0], e[4][0], e[5][0]] == addressed]
+                parts = []
+                if same:
+                    parts.append('remove-kept-entries-with-the-addressed-names')
+                if len(same) < len(extra):
+                    parts.append('unexpected-entries')
+                if missing:
+                    parts.append('remove-deleted-entries-of-other-names')
+                vsig = '+'.join(parts)
+            self.flag(clause, sig, {'after': op, 'missing': missing, 'unexpected': extra}, 'prime == entries written and not removed by exact name', idsig, vsig)
             self.entries = got  # resynchronise: report each divergence once
         return tabs, idxs
 
@@ -502,6 +529,50 @@ def id_prefix_cases(tier):
             yield {'tag': 'id-prefix:run', 'what': f'run ids {rs} / {rl}, {mode}', 'ops': _id_ops(short, long, mode)}
 
 
+# ---- one name under several versions (seed independent) ----------------------
+# The same (run, target, task, algorithm, state vector, value) NAMES are stored
+# under two versions at every non-empty subset of the three versioned levels
+# (2, 4 or 8 prime entries that differ in nothing but versions), in ascending
+# and in descending order of the versions, surrounded by bystanders that differ
+# in exactly one name or in the run.  remove / reset / trace are addressed by
+# name: remove has to take away all of those entries and nothing else.
+VER_LEVELS = ['alg', 'sv', 'val']
+VER_SECOND = {'alg': AVERS[2], 'sv': SVERS[1], 'val': VVERS[1]}
+VER_BASES = {'quick': ['A'], 'thorough': ['A', 'AB']}
+VER_PLANS = ['remove-first', 'observe-first', 'reopen-first']
+
+
+def version_cases(tier):
+    V = (1, 1, 0)
+    for base in VER_BASES[tier]:
+        other = {'A': 'AB', 'AB': 'ABC'}[base]  # a name that `base` is a prefix of
+        for size in (1, 2, 3):
+            for subset in itertools.combinations(VER_LEVELS, size):
+                combos = list(itertools.product(*[[V, VER_SECOND[lv]] if lv in subset else [V] for lv in VER_LEVELS]))
+                for order in ('ascending', 'descending'):
+                    seq = combos if order == 'ascending' else combos[::-1]
+                    writes = [['write', 1, base, base, base, av, base, sv, base, vv] for av, sv, vv in seq]
+                    prefix_value = ['write', 1, base, base, base, V, base, V, other, V]
+                    other_run = ['write', 2, base, base, base, V, base, V, base, V]
+                    other_target = ['write', 1, other, base, base, V, base, V, base, V]
+                    remove = ['remove', 1, base, base, base, base, base]
+                    trace = ['trace', [[base, base]]]
+                    reset = ['reset', 1, base, base, base]
+                    for plan in VER_PLANS:
+                        ops = [prefix_value] + writes + [other_run, other_target]
+                        if plan == 'remove-first':
+                            ops += [remove, reset, trace, ['reopen'], ['remove', 2, base, base, base, base, base]]
+                        elif plan == 'observe-first':
+                            ops += [trace, reset, remove, ['reopen'], trace, reset]
+                        else:
+                            ops += [['reopen'], remove, trace, ['reopen']]
+                        yield {
+                            'tag': 'versions:' + '+'.join(subset),
+                            'what': f'names {base} stored under {len(combos)} version combinations of {"/".join(subset)} ({order}), {plan}',
+                            'ops': ops,
+                        }
+
+
 def _work(args):
     cases, deadline = args
     sc.install()
@@ -531,31 +602,36 @@ def run(tier: str, seed: int) -> dict:
         nrand, procs = 24000, min(16, os.cpu_count() or 1)
     rand = [random_case(rng) for _ in range(nrand)]
     idp = list(id_prefix_cases(tier))  # seed independent
-    cases = core + idp + rand
+    ver = list(version_cases(tier))  # seed independent
+    cases = core + idp + ver + rand
     deadline = t0 + sc.BUDGET_S[tier]
     # the enumerated parts are small and never dropped for time; the sampled part stops at the deadline
     if procs > 1:
         import multiprocessing
 
-        jobs = [((core + idp)[i :: procs * 2], None) for i in range(procs * 2)]
+        jobs = [((core + idp + ver)[i :: procs * 2], None) for i in range(procs * 2)]
         jobs += [(rand[i :: procs * 8], deadline) for i in range(procs * 8)]
         with multiprocessing.get_context('fork').Pool(procs) as pool:
             parts = pool.map(_work, [j for j in jobs if j[0]], chunksize=1)
         results = [r for part in parts for r in part]
     else:
-        results = _work((core + idp, None)) + _work((rand, deadline))
+        results = _work((core + idp + ver, None)) + _work((rand, deadline))
     skipped = len(cases) - len(results)
     viol = sc.Violations()
     execs = 0
     sigs = set()
     id_execs = id_hist = id_effective = 0
+    ver_execs = ver_hist = 0
     for case, found, n, effective in results:
         execs += n
         sigs.add(repr(case['ops']))
-        if case.get('tag'):
+        if case.get('tag', '').startswith('id-prefix'):
             id_execs += n
             id_hist += 1
             id_effective += effective is not False
+        elif case.get('tag'):
+            ver_execs += n
+            ver_hist += 1
         for f in found:
             inp = {'ops': case['ops'][: f['step'] + 1]}
             if case.get('tag'):
@@ -573,14 +649,19 @@ def run(tier: str, seed: int) -> dict:
             f'+ {len(idp)} enumerated, seed-independent decimal-prefix-id histories: {ID_SIBLINGS[tier]} siblings n00.. registered at one of the 5 levels '
             f'(ids 0..{ID_SIBLINGS[tier] - 1}) x every pair of ids (s,l), s one digit, l two, the digit of s occurring in l {id_pairs(ID_SIBLINGS[tier])[:5]}.. '
             f'and {len(ID_RUNS[tier])} pairs of run ids x {{only l has entries, only s has, both have}}: trace / reset / load / remove addressed at the one '
-            'without entries (or at each in turn), reopen, final remove, audited after every operation (the sibling registrations once, after the last); a history counts as effective when the two siblings really hold the ids s and l'
+            'without entries (or at each in turn), reopen, final remove, audited after every operation (the sibling registrations once, after the last); a history counts as effective when the two siblings really hold the ids s and l; '
+            f'+ {len(ver)} enumerated, seed-independent version histories: one set of names stored under 2 versions at each non-empty subset of '
+            '{alg, sv, val} (2/4/8 prime entries with identical names) x {ascending, descending write order} x {remove first, trace/reset first, '
+            f'reopen first}} x base names {VER_BASES[tier]}, plus bystanders (prefix-named value, other run, other target); remove / reset / trace '
+            'addressed at the names, audited after every operation'
         ),
         'exhaustive': False,
-        'samples': [core[1], core[2], rand[0], rand[1], idp[7]],
+        'samples': [core[1], core[2], rand[0], rand[1], idp[7], ver[10]],
         'violations': viol.as_list(),
         'clauses': CLAUSES,
         'histories': len(results),
         'id_prefix': {'histories': id_hist, 'of': len(idp), 'effective': id_effective, 'cases': id_execs},
+        'versions': {'histories': ver_hist, 'of': len(ver), 'cases': ver_execs},
         'skipped_for_time': skipped,
         'wall_s': round(time.time() - t0, 2),
     }
